@@ -157,6 +157,13 @@ def check_crashes(res, ctx, jobs):
         if io.get("status") != "ok":
             res.violation("failing-input", "crash case panicked: %s" % io.get("panic"), {"input": hc})
             continue
+        if not spec:
+            # a complete write: the steps the write path reports are the steps of the modelled procedure
+            st["traces"] += 1
+            want, got = model_steps(new), norm_trace(io.get("trace", []))
+            if want != got:
+                st["correspondence_diffs"] += 1
+                ctx["corr_diffs"].append((hc, "steps of a complete write: model %s, implementation %s" % (want, got)))
         aborted = io["child_exit"] is None
         if aborted:
             st["child-aborted"] += 1
@@ -207,6 +214,31 @@ def check_crashes(res, ctx, jobs):
                         R.iso(dd), spec, R.ans_str(ma) if ma != "?" else ma, mreq, R.ans_str(a), reqs)))
         if len(ctx["samples"]) < 3 and spec.startswith("bytes:"):
             ctx["samples"].append({"crash": spec, "new_rows": render(new)[:120], "lookups": [R.iso(x) for x in lookups]})
+
+
+def norm_trace(trace):
+    """hook trace -> step kinds, consecutive repeats merged:
+    create, write, flush, sync, rename (markers after_flush / after_sync dropped)"""
+    out = []
+    for ev in trace:
+        k = {"after_create": "create", "flush": "flush", "sync": "sync", "after_rename": "rename"}.get(ev)
+        if ev.startswith("write:"):
+            k = "write" if int(ev[6:]) > 0 else None
+        if k and (not out or out[-1] != k):
+            out.append(k)
+    return out
+
+
+def model_steps(new):
+    mo = run_model([[6, PROC] + rows_ints(new)], group="rates")[0]
+    assert mo[0] == 1
+    names = {1: "create", 2: "create", 3: "write", 4: "write", 5: "flush", 6: "sync", 7: "sync", 8: "rename", 9: "rename?"}
+    out = []
+    for k in mo[1:]:
+        n = names[k]
+        if not out or out[-1] != n:
+            out.append(n)
+    return out
 
 
 def show(b):
